@@ -12,39 +12,47 @@ import re
 from .common import Ctx, Driver
 
 MANIFEST = dict(
-    text=("Lean theorems for every codec record (canEnc/enc/dec; the laws AsciiOK, RoundTrip, AsciiCompat are explicit hypotheses, tested "
-          "per case on the real codecs), every tree, every string: str.encode(C,'xmlcharrefreplace') always returns bytes = strict "
-          "encoding of the string with unencodable code points as &#N; (encodeWith_total, encode_total for encode/prettify(enc)/"
-          "encode_contents; strict_raises_iff + encode_contents_strict_raises = 4.13.0's encode_contents); the bytes decode to that string "
-          "(bytes_decode, entry_points_decode, table_codecs_lawful for the generated CPython single-byte tables); reading the replaced, "
-          "entity-substituted text / quoted attribute value as html.parser+bs4 / html.unescape do gives the value back unless it holds an "
-          "unencodable C1 control (or, in attributes, noncharacter/surrogate) (lossless_text, lossless_attr over the generated "
-          "windows-1252 and html.unescape tables; lossless_*_needs_safe are the decided counterexamples = the two known findings); "
-          "<meta charset>/<meta http-equiv=content-type content> get placeholders at parse time and render with the target's name, '' / "
-          "removed for PYTHON_SPECIFIC_ENCODINGS, untouched for eventual_encoding=None (meta_rewritten_charset, meta_untouched(_charset), "
-          "meta_content_placeholder, meta_both_styles, setUp_old_agrees, meta_rewritten_content_partial and meta_rewritten_content_verbatim for ANY target name (digits, "
-          "backslashes, \\g<1>…: the rewrite is literal), content_rewritten_spellings and charset_re_tolerant over the generated "
-          "shape of the live CHARSET_RE, xml_declaration, python_specific_table); a declared-charset finder returns the target name on the "
-          "bytes of an ASCII-compatible codec (redetect_charset_partial, redetect_content_partial). Tie: differential runs of the real code "
-          "against the Lean model (xmlcharrefreplace/strict byte-for-byte on 15 single-byte codecs and string-level on the others, "
-          "CHARSET_RE.sub/search, set_up_substitutions, decode/prettify/decode_contents renderings, the reader on the writer's image) and "
-          "the direct oracle on generated documents x encodings x entry points (bytes; decode; re-parse recovers values; declaration; "
-          "original_encoding of a re-parse). Target names are drawn from the spellings codecs.lookup accepts — digit-leading labels "
-          "('866', '437', '1252', '8859'…), mixed case, other separators and regex/format metacharacters ('utf\\8', 'utf$8', "
-          "'UTF{8', 'latin\\1', '(utf8)') — every accepted spelling x 4 declarations x every entry point each run; old declared "
-          "values and their neighbours carry digits and template metacharacters too."),
+    text=("Lean theorems for every codec record (canEnc/enc/dec; the laws AsciiOK, RoundTrip, AsciiCompat are explicit hypotheses — satisfied, "
+          "with proofs, by the seven UTF codecs modelled byte for byte (utf_codecs_lawful: UTF-8/16/32, LE/BE and BOM-writing) and by every "
+          "generated CPython single-byte decode table (sb_table_codec_laws over the whole table), and tested per case on the other real "
+          "codecs), every tree, every string. SUCCEEDS: str.encode(C, errors) for errors in strict/ignore/replace/xmlcharrefreplace/"
+          "backslashreplace; every handler but strict always returns bytes = strict encoding of the handled string (encodeWith_total, "
+          "encode_total for encode/prettify(enc)/encode_contents, encode_errors_total for Tag.encode(errors=…), strict_raises_iff, "
+          "encode_contents_strict_raises = 4.13.0, handlers_agree_on_encodable, other_handlers_lose). DECODES: bytes_decode, "
+          "entry_points_decode, bytes_decode_errors. FALLBACK: fallback_every_code_point (c itself or &#dec; — ASCII, <= 10 chars, digits read "
+          "back), fallback_by_codec_class (single-byte: not in the table; UTFs: exactly the lone surrogates), utf_needs_no_references, "
+          "encode_default_is_utf8. LOSSLESS: lossless_text / lossless_attr (reading back the replaced, entity-substituted text / quoted "
+          "value as html.parser+bs4 / html.unescape do, over the generated windows-1252 and html.unescape tables; hypothesis CharrefSafe; "
+          "lossless_*_needs_safe = the two known findings, decided) and encoding_touches_values_only (tree level: xmlcharrefreplace "
+          "commutes with rendering, the markup skeleton is untouched). DECLARATION: meta_rewritten_charset, meta_content_placeholder "
+          "(string or list-valued http-equiv), meta_both_styles (+ setUpSubstitutionsOld / meta_both_styles_old_stale / setUp_old_agrees), "
+          "meta_rewritten_content (general shape: any quiet prefix incl. earlier parameters, every key spelling the live pattern accepts, "
+          "any value, any target name, continuation), meta_rewritten_content_last, meta_rewritten_content_verbatim, "
+          "meta_python_specific_only_removes, content_rewritten_spellings + charset_re_tolerant (decided over the generated shape of the "
+          "live CHARSET_RE; line-start form), xml_declaration, python_specific_table / isPythonSpecific_iff (whole table). UNTOUCHED: "
+          "meta_untouched(_charset), decode_without_encoding_ignores_placeholders (whole tree, every indentation), and "
+          "str_rendering_names_default (str()/decode()/prettify() default to utf-8: NOT untouched). RE-DETECTION: redetect_charset_partial / "
+          "redetect_content_partial (any quiet ASCII prefix, any name, ASCII-compatible codec; partial only in that the finder takes the "
+          "first declaration where dammit's regex takes the last one of the first <meta> that has one), redetect_bom (+ needs_nonzero_start "
+          "witness). Tie: differential runs of the real code against the Lean model — str.encode for 5 handlers byte for byte on 15 "
+          "single-byte + 7 UTF codecs and string-level elsewhere, the strict UTF decoders on damaged bytes, BOM sniffing, CHARSET_RE.sub/"
+          "search, set_up_substitutions (incl. list-valued http-equiv), decode/prettify/decode_contents/str() renderings with list and None "
+          "attribute values, Tag.encode(errors=…), the reader on the writer's image — and the direct oracle on generated documents x "
+          "encodings x entry points (bytes; decode; re-parse recovers values; declaration; original_encoding of a re-parse), with target "
+          "names from every spelling codecs.lookup accepts and call histories (repeated calls, copies, pickles) on the same object."),
     design="7/C08",
-    note=("Codecs are parameters with hypotheses, grounded by testing each real codec's laws on the characters of the case: (codec, "
-          "character) pairs where CPython's codec is not round-trip lawful (shift_jis/euc-jp U+00A5 U+203E, cp932 U+00A2.., euc-kr U+3164, "
-          "iso-2022-kr SO/SI, …) are dropped from the case and counted (excluded:unlawful-pair). Known findings re-observed from "
-          "behaviour each run: C1 controls via &#128;–&#159;, noncharacters in attribute values. A <meta> with both declaration styles "
-          "must have both rewritten (repaired set_up_substitutions: `if … if …`; setUpSubstitutionsOld + meta_both_styles_old_stale "
-          "keep the 4.13.0 behaviour as a witness). Text inside script/style and comments is "
-          "written raw, so an unencodable character there becomes a literal &#N; that no reader undoes: outside the quantifier "
-          "(\"text/attributes\"), exercised for 'succeeds and decodes' only and counted. prettify: values compared modulo strip(). "
-          "The reader model covers only the writer's image (C09 owns the reader); the finder of `redetect_*` is a simplification of "
-          "dammit's regex (C07 owns it); the full re-detection claim is checked on the real code."),
-    technique="Lean 4 proof over abstract lawful codecs + generated tables + differential correspondence + direct Python oracle",
+    note=("Codec laws are hypotheses, grounded by proofs for the modelled codecs and by testing each other real codec on the characters of "
+          "the case: (codec, character) pairs where CPython's codec is not round-trip lawful (shift_jis/euc-jp U+00A5 U+203E, cp932 U+00A2.., "
+          "euc-kr U+3164, iso-2022-kr SO/SI, hz on long strings …) are dropped and counted. Known findings re-observed from behaviour each "
+          "run: C1 controls via &#128;–&#159; and noncharacters in attribute values (neither repairable in bs4: HTML5 defines &#128;–&#159; "
+          "as windows-1252 whatever the numeric form, and attribute values are unescaped by stdlib html.unescape before bs4 sees them), and "
+          "C08-pickle-rewrites-declaration (BeautifulSoup.__getstate__ renders with the default eventual_encoding; candidate repair in "
+          "fixes/). Not modelled: errors=namereplace/surrogateescape/surrogatepass, formatters other than 'minimal' (oracle only), "
+          "string-literal mode details beyond pre/textarea. Text inside script/style and comments is written raw: outside the quantifier, "
+          "exercised for 'succeeds and decodes' only and counted. prettify: values compared modulo strip(). The reader model covers only "
+          "the writer's image (C09 owns the reader); the finder of redetect_* is a simplification of dammit's regex (C07 owns it); the "
+          "full re-detection claim is checked on the real code."),
+    technique="Lean 4 proof over abstract lawful codecs (+ concrete UTF/table codecs) + generated tables + differential correspondence + direct Python oracle",
 )
 
 ENCODINGS = ["ascii", "latin-1", "windows-1252", "iso-8859-2", "iso-8859-5", "iso-8859-7", "iso-8859-8", "iso-8859-15", "koi8-r",
